@@ -108,6 +108,10 @@ func symbolPacket(sym string, seq uint64) gocbcore.SimPacket {
 		return docPacket("mutation", seq, fmt.Sprintf("at%d", seq), "at", 0)
 	case "Ebefore":
 		return docPacket("expiration", seq, fmt.Sprintf("old%d", seq), "before", 0)
+	case "Mresc1": // a key under the reserved prefix in a NAMED collection (checkpoints kept in the streamed collection)
+		return docPacket("mutation", seq, reservedPrefix+"g:checkpoint:7", "after", 8)
+	case "Dtxnc2":
+		return docPacket("deletion", seq, txnPrefix+"atr-9", "after", 9)
 	case "Mc1":
 		return docPacket("mutation", seq, fmt.Sprintf("c1doc%d", seq), "after", 8)
 	case "Dc2":
@@ -499,6 +503,11 @@ func (pp *pipe) checkAll() {
 		want := pp.settled(vb)
 		if got, _ := e.Tracked(vb); got != want {
 			pp.fail("vb%d tracked position %d, furthest settled %d", vb, got, want)
+		}
+		// C04: the consumer's offset tracker has been told this position (whatever moved it there: an
+		// acknowledgement, a system / seqno-advanced event, a library-internal document)
+		if ts := e.Cons.TrackSeq[vb]; want > pp.resume[vb] && (len(ts) == 0 || ts[len(ts)-1] != want) {
+			pp.fail("vb%d: the position is %d, the consumer's offset tracker was last told %v", vb, want, ts)
 		}
 		// C06: every TrackOffset argument is a legal, untorn tuple
 		offs, _, _ := e.Stream.GetOffsets()
